@@ -98,6 +98,8 @@ Definition c14_ok (t : tr14) (o : aop) (r : ares) (d : deliveries) : bool :=
       | AGetState ns, AState s _ h => (h =? get_h t ns) && Bool.eqb s (get_sync t ns)
       (* a document that another handle still holds stays usable: dropping it is refused *)
       | ADrop ns, AOk => get_h t ns <=? 1
+      (* ... and a document that nobody else holds can always be dropped: "not closed" needs another handle *)
+      | ADrop ns, AErr ANotClosed => 1 <? get_h t ns
       | _, _ => true
       end).
 Definition tr14_step (t : tr14) (o : aop) (r : ares) : tr14 :=
